@@ -90,7 +90,7 @@ var def = pbt.Def[mqrig.Case]{Name: "sent-or-failed-once", Gen: gen, Run: judge}
 
 func TestProp(t *testing.T) {
 	outerT = t
-	pbt.Check(t, run, def, 8000, 1000000)
+	pbt.Check(t, run, def, 8000, 500000)
 }
 
 func TestReplay(t *testing.T) {
